@@ -239,7 +239,7 @@ def run_case(rng, tier, case):
     if spec['grid'].get('tz') and rng.random() < 0.4:
         # the dates of an asset (window, take periods) given zone-aware: in UTC or quoted in another zone than the grid's (the same instants)
         form = gen.pick(rng, ['aware_utc', 'aware_other'])
-        names_ = {a['name'] for a in spec['assets'] if (a.get('min_take') or a.get('max_take')) and not a.get('freq')}
+        names_ = {a['name'] for a in spec['assets'] if (a.get('min_take') or a.get('max_take'))}
         for sp_ in (spec, plus):
             for a in sp_['assets']:
                 if a['name'] in names_:
